@@ -182,14 +182,27 @@ structure Transc (α : Type) where
   atan2 : α → α → α
   pi : α
 
-/-- `CalcAngularVelocityfromMatrix` (tolerance `1e-12` as coded) -/
+/-- `CalcAngularVelocityfromMatrix` (tolerance `1e-12` as coded).  Third branch: rotation by π about the
+    unit axis `n`, `RotMat = 2 n nᵀ − 1`; `|nᵢ| = sqrt (max 0 ((Rᵢᵢ + 1) / 2))`, relative signs from the row
+    of the largest component (first largest in index order), result `π n`. -/
 def angularVelocityFromMatrix (T : Transc α) (R : M3 α) : V3 α :=
   let tol : α := 1 / 1000000000000
   let l : V3 α := ⟨R.m21 - R.m12, R.m02 - R.m20, R.m10 - R.m01⟩
   let n := T.sqrt (l.dot l)
   if tol < n then (T.atan2 n (R.trace - 1) / n) * l
-  else if (0 < R.m00 ∧ 0 < R.m11 ∧ 0 < R.m22) ∨ n < tol then V3.zero
-  else ⟨T.pi / 2 * (R.m00 + 1), T.pi / 2 * (R.m11 + 1), T.pi / 2 * (R.m22 + 1)⟩
+  else if 0 < R.m00 ∧ 0 < R.m11 ∧ 0 < R.m22 then V3.zero
+  else
+    -- `std::max (0., x)`
+    let max0 := fun (x : α) => if 0 < x then x else 0
+    let n0 := T.sqrt (max0 ((R.m00 + 1) * (1 / 2)))
+    let n1 := T.sqrt (max0 ((R.m11 + 1) * (1 / 2)))
+    let n2 := T.sqrt (max0 ((R.m22 + 1) * (1 / 2)))
+    -- `k = 0; if (n[1] > n[k]) k = 1; if (n[2] > n[k]) k = 2;`
+    let k1 : Nat := if n0 < n1 then 1 else 0
+    let k : Nat := if (if k1 = 1 then n1 else n0) < n2 then 2 else k1
+    -- `if (i != k && RotMat(k,i) < 0) n[i] = -n[i];`
+    let sg := fun (i : Nat) (x : α) => if i ≠ k ∧ R.get k i < 0 then -x else x
+    T.pi * (⟨sg 0 n0, sg 1 n1, sg 2 n2⟩ : V3 α)
 
 structure IKCSState (α : Type) where
   w : WS α
